@@ -160,10 +160,12 @@ Lemma op_code_call i : op_code (instr_op i) = 11 <-> is_callf i = true.
 Proof. destruct i; cbn; split; intros H; try discriminate H; reflexivity. Qed.
 
 (* ------------------------------------------------------------------ the compile-time theorem *)
-(* the ghost: the process_card runs of a compilation, each an execution on a card of a function of the tree *)
+(* the ghost: the process_card runs of a compilation, each an execution on a card of a function of the tree and a
+   part of this compilation: what its end state has recorded is a suffix of the final trace (in emission order:
+   rev (p_trace B), newest first) *)
 Definition gruns_real (M : module) (o : options) (B : compiled) (gruns : list grun) : Prop :=
   exists fs, into_ir_stream M (o_recursion_limit o) = inr fs /\
-             gruns_in fs 0 (N.of_nat (length (p_bytecode B))) gruns /\
+             gruns_in fs 0 (N.of_nat (length (p_bytecode B))) [] (rev (p_trace B)) gruns /\
              forall f, In f fs -> fn_in_tree M f.
 
 Definition byte_at (B : compiled) (a : N) : N := nth (N.to_nat a) (p_bytecode B) 255.
@@ -189,7 +191,7 @@ Proof.
   assert (Hlen : N.of_nat (length (encode (rev (cs_code s)))) = cs_pc s) by (symmetry; apply pc_encoded_length, Hpc).
   rewrite Hlen in Hsz. destruct (HG Hsz) as (newx & gruns & Ht & Ha & Hr & Hx).
   pose proof (ir_stream_in_tree _ _ _ Eir) as Htree.
-  exists gruns. split; [exists fs; unfold finish; cbn [p_bytecode]; rewrite Hlen; auto|].
+  exists gruns. split; [exists fs; unfold finish; cbn [p_bytecode p_trace]; rewrite Hlen, rev_involutive; auto|].
   intros a l Hin. apply in_rev in Hin. rewrite Ht in Hin. apply in_map_iff in Hin.
   destruct Hin as ([[a' l'] b] & E & Hin). cbn [fst] in E. injection E as -> ->.
   rewrite Forall_forall in Hx. destruct (Hx _ Hin) as (_ & Hat). cbn [fst snd] in Hat.
